@@ -659,6 +659,8 @@ def wrapper_contracts(rep):
                 ex.stubs[(QP, 'PreparedStatementPlanner')] = ctor
                 ex.stubs[('mindsdb_sql.planner.query_prepare', 'PreparedStatementPlanner')] = ctor
                 arg = {'value': SymObj(None, 'arg', prov='param'), 'empty-list': [], 'none': None}[variant]
+                if variant == 'value':
+                    arg.known_not_none = True
                 ex.path_state.update(calls=calls, result=result, arg=arg, selfo=selfo)
                 return [selfo] + ([arg] if nargs else []), {}
 
